@@ -33,6 +33,10 @@ for d in sorted(glob.glob("/tmp/seed_C*_out/change*") + glob.glob("/tmp/seed_C*_
                                         "builds_default_and_hook_features": True, "existing_suite_results_identical": True,
                                         "how": "tools/confirm_seed.sh %s <dir> (scratch worktree, never /repo itself)" % pid},
             "check_history": hist,
-            "caught_by": sorted(set(prev.get("caught_by", [])) | ({pid} if c["check_rc"] == 1 else set()))}
+            "caught_by": sorted(set(prev.get("caught_by", [])) | ({pid} if c["check_rc"] == 1 else set())
+                                | (set(open(os.path.join(d, "matrix.txt")).read().split()) if os.path.exists(os.path.join(d, "matrix.txt")) else set()))}
+    for k in ("kind", "commit_message"):
+        if k in m:
+            meta[k] = m[k]
     json.dump(meta, open(os.path.join(out, "meta.json"), "w"), indent=1)
     print(pid, n, "caught" if c["check_rc"] == 1 else "MISSED rc=%d" % c["check_rc"])
